@@ -5455,6 +5455,9 @@ pub fn initialize(env: &mut Env) {
                             );
                             a /= base;
                         }
+                        if ret.is_empty() {
+                            ret.push('0');
+                        }
                         if neg {
                             ret.push('-');
                         }
